@@ -133,9 +133,18 @@ namespace occa {
     }
   }
 
+  // A launch extent that is negative when read as a signed value comes from
+  // an OKL loop that is empty at run time (e.g. [outer[0] = N - S] with N < S)
+  static inline bool isNegativeExtent(const dim &d) {
+    return (((dim_t) d.x < 0) ||
+            ((dim_t) d.y < 0) ||
+            ((dim_t) d.z < 0));
+  }
+
   bool modeKernel_t::isNoop() const {
     return (
       outerDims.isZero() || innerDims.isZero()
+      || isNegativeExtent(outerDims) || isNegativeExtent(innerDims)
     );
   }
 }
